@@ -782,11 +782,18 @@ def rule_bound_live(db, chk, cfg, e2eng_factory, rule="LOOP.bound-live"):
             if f.body is None or f.is_pattern or f.cls not in cls:
                 continue
             for lp in walk(f.body):
-                if lp.get("kind") != "ForStmt":
+                if lp.get("kind") not in ("ForStmt", "WhileStmt", "DoStmt"):
                     continue
                 ks = kids(lp)
                 body = ks[-1]
-                cond = ks[2] if len(ks) >= 4 else None
+                if lp.get("kind") == "ForStmt":
+                    cond = ks[2] if len(ks) >= 4 else None
+                elif lp.get("kind") == "DoStmt":
+                    body = ks[0]
+                    cond = ks[-1]
+                else:
+                    cs = [c0 for c0 in ks[:-1] if isinstance(c0, dict) and c0.get("kind")]
+                    cond = cs[-1] if cs else None
                 if not isinstance(cond, dict) or not cond.get("kind"):
                     continue
                 # the member indexed with the loop's counter
@@ -795,10 +802,12 @@ def rule_bound_live(db, chk, cfg, e2eng_factory, rule="LOOP.bound-live"):
                 for y in walk(body):
                     if y.get("kind") == "CXXOperatorCallExpr" and db.callee(y)[0] == "operator[]" and len(kids(y)) == 3:
                         b = _u(kids(y)[1])
-                        i0 = _u(kids(y)[2])
-                        if b.get("kind") == "MemberExpr" and (not kids(b) or _u(kids(b)[0]).get("kind") == "CXXThisExpr") and b.get("name") in eng.fields \
-                                and i0.get("kind") == "DeclRefExpr" and re.search(r"(?<![\w])%s(?![\w])" % re.escape(i0["referencedDecl"].get("name", "?")), canon(cond)):
-                            member, idx = b.get("name"), i0["referencedDecl"].get("name")
+                        # the index expression reads a local that the loop condition reads too (i, i++, i - 1 ...)
+                        ivars = [z["referencedDecl"].get("name") for z in walk(kids(y)[2]) if z.get("kind") == "DeclRefExpr" and
+                                 z.get("referencedDecl", {}).get("kind") == "VarDecl"]
+                        ivars = [v for v in ivars if v and re.search(r"(?<![\w])%s(?![\w])" % re.escape(v), canon(cond))]
+                        if b.get("kind") == "MemberExpr" and (not kids(b) or _u(kids(b)[0]).get("kind") == "CXXThisExpr") and b.get("name") in eng.fields and ivars:
+                            member, idx = b.get("name"), ivars[0]
                             break
                 if member is None:
                     continue
